@@ -115,7 +115,8 @@ Poison(out) == IF "map" \in DOMAIN out
 ----------------------------------------------------------------------------
 Tab(op, o, args, out) ==
     (EmitH /\ tcache = {} /\ last = <<>>) =>
-        PrintT(<<"HTAB", ToJson([g |-> gen, o |-> o, op |-> op, args |-> args, out |-> out])>>)
+        PrintT(<<"HTAB", ToJson([g |-> gen, o |-> o, op |-> op, args |-> args, out |-> out,
+                                 pkg |-> objs[o].pkg, prts |-> objs[o].prts])>>)
 
 Init == /\ gen = [o \in Objs |-> 0]
         /\ objs = [o \in Objs |-> [pkg |-> Content(o, 0), prts |-> PartsOf(o)]]
@@ -153,10 +154,11 @@ Scripts(o)    == DictCall("scripts", o, AScripts(o))
 Md5sums(o)    == DictCall("md5sums", o, AMd5(o))
 DebControl(o) == DictCall("debcontrol", o, ACtl(o))
 
-\* the caller changes the dictionary it was handed last
-Mutate == /\ last # <<>>
-          /\ rmemo' = IF ResultsAliased THEN {IF e.k = last THEN [e EXCEPT !.v = Poison(e.v)] ELSE e : e \in rmemo}
-                                        ELSE rmemo
+\* the caller changes the dictionary it was handed last (if any; one that belonged to an object
+\* since re-opened is nobody's business)
+Mutate == /\ rmemo' = IF ResultsAliased /\ last # <<>>
+                      THEN {IF e.k = last THEN [e EXCEPT !.v = Poison(e.v)] ELSE e : e \in rmemo}
+                      ELSE rmemo
           /\ hres' = [op |-> "mutate"]
           /\ UNCHANGED <<objs, gen, tcache, ccache, last>>
 
